@@ -165,6 +165,7 @@ type Obligation struct {
 }
 
 type Enc struct {
+	stepCover map[string][]Term // per step clause: (edge condition and hypothesis) for every edge that ends an iteration
 	axMu       sync.Mutex
 	usedAxioms map[string]bool // trusted spec axioms (by trigger symbol) that entered this function's queries
 	usesUncomparable bool // an interface comparison was encoded (declare uncomparable_tag and its facts)
